@@ -437,6 +437,10 @@ def fold_block(stmts, env):
         if isinstance(st, ast.Expr) and isinstance(st.value, ast.Call) and norm(st.value.func) in env.get('__calls__', ()):
             const(st.value, env)
             continue
+        if isinstance(st, ast.Expr) and isinstance(st.value, ast.Call) and isinstance(st.value.func, ast.Attribute) and \
+                isinstance(st.value.func.value, ast.Name) and isinstance(env.get(st.value.func.value.id), FoldObject):
+            const(st.value, env)
+            continue
         if isinstance(st, ast.Try) and not st.finalbody and not st.orelse:
             # handlers for struct.error only: the one exception the evaluator itself can meet
             hs = [h for h in st.handlers if h.type is not None and norm(h.type) == 'struct.error']
